@@ -50,6 +50,10 @@ def run(ctx):
     groups, pats, members = {}, {}, []
     total = 0
     for e in events:
+        if e["op"] == "filevalues":
+            members.append(e)
+            total += e["hi"] - e["lo"] + 1
+            continue
         if e["op"] == "members":
             members.append(e)
             total += len(e["vals"])
@@ -84,7 +88,7 @@ def run(ctx):
     big = next(g for g in pats.values() if len(g["arr"]) > 1000 and g["arr"][-1] == 32768)
     canary("pattern-max", big, lambda e: e["arr"].__setitem__(len(e["arr"]) - 1, 32767))
     canary("pattern-nonmonotone", big, lambda e: e["arr"].__setitem__(500, e["arr"][499] - 1))
-    canary("member", members[0], lambda e: e["vals"][0].__setitem__(1, e["vals"][0][1] + 1))
+    canary("member", next(e for e in members if e["op"] == "members"), lambda e: e["vals"][0].__setitem__(1, e["vals"][0][1] + 1))
     ctx.sample({k: (v if k != "ctls" else v[:4]) for k, v in neg.items()})
     ctx.sample({"op": "pattern", "ctls": big["ctls"][:3], "arr_head": big["arr"][:8], "arr_len": len(big["arr"])})
 
